@@ -226,7 +226,9 @@ Pure(name, a) ==
          IF n = 0 THEN OE
          ELSE (CASE a[1].t = "map" -> IF n < 3 \/ n % 2 = 0 \/ ~KeysKeyable(Tail(a)) THEN OE
                                      ELSE OV(MapV(AssocPairs(a[1].m, Tail(a), 1)))
-                [] a[1].t = "vec" -> IF n # 3 THEN OX
+                \* (an odd key/value count is outside the domain for vectors as for maps: an error)
+                [] a[1].t = "vec" -> IF n % 2 = 0 THEN OE
+                                     ELSE IF n # 3 THEN OX
                                      ELSE IF ~IsInt(a[2]) THEN OE
                                      ELSE IF a[2].i >= 0 /\ a[2].i < Len(a[1].xs)
                                           THEN OV(VecV([a[1].xs EXCEPT ![a[2].i + 1] = a[3]]))
